@@ -371,6 +371,12 @@ func (l *mergeJoinKvIter) exhaustLeftReturn(ctx *sql.Context) (sql.Row, error) {
 // left key. |l.nextRightKey| can be a lookahead key or nil at the
 // end of this stage.
 func (l *mergeJoinKvIter) fillMatchBuf(ctx *sql.Context) error {
+	if l.nextRightKey != nil {
+		// the lookahead for the current right key already ran (a left row
+		// that compared equal produced no row); reading again would drop
+		// the stashed next right row
+		return nil
+	}
 	var err error
 	for {
 		l.nextRightKey, l.nextRightVal, err = l.rightIter.Next(ctx)
